@@ -166,6 +166,44 @@ def c10_threads(spec, rec):
         sys.setswitchinterval(old)
 
 
+def c10_wakeups(spec, rec):
+    """no lost wake-up: a submitter blocked on a full semaphore is released
+    by release() and by grow()"""
+    from billiard.pool import LaxBoundedSemaphore
+    rng = rng_for(spec['seed'], 'semwake')
+    for case in range(spec['cases']):
+        size = rng.choice([1, 2, 3])
+        how = rng.choice(['grow', 'release'])
+        sem = LaxBoundedSemaphore(size)
+        for _ in range(size):
+            sem.acquire()
+        got = {}
+        started = threading.Event()
+
+        def waiter():
+            started.set()
+            t0 = time.monotonic()
+            got['ok'] = sem.acquire(True, 40)
+            got['dt'] = time.monotonic() - t0
+        th = threading.Thread(target=waiter, daemon=True)
+        th.start()
+        started.wait(5)
+        time.sleep(rng.choice([0.0, 0.01, 0.05]))
+        if how == 'grow':
+            sem.grow()
+        else:
+            sem.release()
+        th.join(45)
+        rec.case()
+        rec.count('l0:wakeups_' + how)
+        attrs = {'lane': 'l0', 'mode': 'wakeup', 'by': how}
+        if not got.get('ok'):
+            rec.violation('blocked_acquirer_never_released', attrs, got=got, size=size)
+        elif got['dt'] > 12.0:
+            rec.violation('blocked_acquirer_woken_only_by_its_timeout', attrs, got=got, size=size)
+        rec.sig(['semwake', size, how])
+
+
 # ---------------------------------------------------------------- C11 --
 
 class LimiterModel:
